@@ -19,3 +19,5 @@ open Bec2Verif.C19
 #print axioms oid_roundtrip
 #print axioms explicit_parameters_roundtrip
 #print axioms explicit_finds_named_curves
+#print axioms base64_roundtrip
+#print axioms pem_armour_roundtrip
